@@ -433,9 +433,10 @@ static void run_case(vh_ctx *c)
     if (pred->row == m && pred->col == ny && vh_coin(c, 0.25)) {
       size_t m2 = vh_coin(c, 0.5) ? m + (size_t)vh_int(c, 1, 30) : (m > 1 ? (size_t)vh_int(c, 1, (long)m - 1) : 2);
       matrix *mxr; ld worst = 0;
+      if ((c->idx & 3) == 1) { m2 = m; vh_obs("reused_output_matrix_same_shape", 1); }   /* second build session: the buffer keeps its shape and still holds the first prediction */
       NewMatrix(&mxr, m2, p);
       for (i = 0; i < m2; i++) for (j = 0; j < p; j++) mxr->data[i][j] = (double)(cm[j] + (cs[j] > 0 ? cs[j] : 1) * (ld)vh_gauss(c));
-      vh_obs(m2 > m ? "reused_output_matrix_grows" : "reused_output_matrix_shrinks", 1);
+      if (m2 != m) vh_obs(m2 > m ? "reused_output_matrix_grows" : "reused_output_matrix_shrinks", 1);
       MLRPredictY(mxr, NULL, mod, pred, NULL, NULL, NULL);
       if (pred->row != m2 || pred->col != ny) vh_fail(c, "MLRPredictY|reused-output-matrix-shape", "second prediction for %zu objects into a matrix that held %zu: result is %zux%zu", m2, m, pred->row, pred->col);
       else {
